@@ -5,7 +5,7 @@ A case = (abstract design, style): text of the independent writer (render_verilo
 what the text describes (modules, libraries, ports dir/width/base, one cable per declared or implied net, bit-level joins of every
 connection expression, black boxes, assigns, constants, parameters, attributes, top); Inv + self-containment.  Bundled .v: parse + Inv.
 """
-import sys, json, os
+import sys, json, os, random
 import rtcommon as R
 import render_verilog as V
 
@@ -56,6 +56,8 @@ def main():
         return run.finish()
     for seed in cfg.get('seeds', []):
         ad = R.gen_hier(seed, 'verilog')
+        if cfg.get('alias_shapes'):
+            V.alias_shapes(ad, random.Random('c06-alias:%s' % seed), **cfg['alias_shapes'])
         for v in range(cfg.get('styles', 2)):
             style = V.make_style(seed, v)
             style.update(cfg.get('style_override') or {})
